@@ -55,6 +55,22 @@ def run_unit(desc):
                                    "role": "stand-in (out of subset)" if h.unsupported else "cross-check of the encoding against CPython"})
             if not h.unsupported and st.get("found") and all(r.verdict == "proved" for r in h.results):
                 rep["crash"] = f"encoding cross-check failed: verifier proved {c.uid} but native run disagrees: {st['found'][0]}"
+    elif getattr(c, "timed", False) and not c.witness:
+        # timed operators: replay and cross-check on a TestScheduler against a reference written from the property text
+        opname = {"sample_observable": "sample"}.get(c.name.split("/")[0], c.name.split("/")[0])
+        rep["replayable"] = {"runner": "timedrun.py", "module": "-", "name": opname}
+        if h.unsupported or tier == "thorough":
+            res, err = report.native([os.path.join(VERIF, "rxvc", "timedrun.py"), "replay", "-", opname,
+                                      json.dumps({"replay_path": os.path.join(report.REPLAY_DIR, f"{desc['prop']}-standin-{opname}.py"),
+                                                  "prop": desc["prop"], "oid": c.uid + "/bounded-standin"})], timeout=200)
+            st = res if res is not None else {"found": [], "error": err, "cases": 0}
+            rep["standin"] = st
+            rep["bounded"].append({"function": c.uid, "bound": "timedrun.py: timelines of <= 3 elements at multiples of 10 with completion / error / open end "
+                                   "(also at the instant of the last element) x parameter grid, on a TestScheduler",
+                                   "cases": st.get("cases", 0), "mismatches": len(st.get("found", [])),
+                                   "role": "stand-in (out of subset)" if h.unsupported else "cross-check of the contract against CPython"})
+            if not h.unsupported and st.get("found") and all(r.verdict == "proved" for r in h.results):
+                rep["crash"] = f"cross-check failed: verifier proved {c.uid} but the native timed run disagrees: {st['found'][0]}"
     elif c.witness:
         rep["replayable"] = {"runner": "diffrun.py", "module": desc["module"], "name": c.name}
         # the executable twin of the spec against the literal list expression (validates the SPEC, bounded)
